@@ -19,6 +19,7 @@ def parseOp : List String → Option Op
   | ["run"] => some .run
   | ["t", ms] => some (.tick (natTok ms))
   | ["mark"] => some .mark
+  | ["shutdown"] => some .shutdown
   | _ => none
 
 def splitOnChar (s : String) (c : Char) : List String := s.splitOn (String.singleton c)
